@@ -23,6 +23,13 @@ FINDINGS = [
          what="same root cause with argparse as the truth: the truth's own parse already carries the invented 0.0, which the function target then shows as None",
          site="cdd/argparse_function/utils/emit_utils.py:parse_out_param",
          example="truth argparse add_argument('--alpha', type=float, required=True) -> gold default 0.0"),
+    dict(id="C12-created-method-repeats-the-tail-of-a-folded-description", property="C12",
+         pattern=dict(check="sync", clause="target_equivalent_to_truth", truth="class", target="function", initial={"in": ["missing", "empty"]}, field="doc", observed="suffix_added"),
+         what="[C15-footer-boundary] a class truth whose last ':cvar' description is folded over two lines (hand-wrapped or written by the emitters' word-wrap): the continuation line is taken "
+              "for a footer of the original docstring, so the method that sync creates carries the whole description and then its second line once more",
+         site="cdd/shared/docstring_utils.py:parse_docstring_into_header_args_footer (_get_token_last_idx ends the section at the end of the last parameter's first line), reached through "
+              "cdd/docstring/emit.py with _internal['original_doc_str']",
+         example="class ConfigClass with the docstring ':cvar alpha: the directory that every ... created on<newline>        demand and emptied again after each epoch has completed' and alpha: str = 'out'; sync --truth class with a missing method file"),
 ]
 FIXED = [
     'fixed: property=C12 88502dc class truth documenting a return value, function target missing or empty: the created method had return_type as a parameter (one interface object shared by the emitters, mutated by the class emitter)',
